@@ -43,6 +43,8 @@ type SourceRef struct {
 	// Pad > 0: start and stop are written as quoted decimal strings left-padded with zeros
 	// to this width (numbers may come as strings, e.g. from environment variables)
 	Pad int
+	// OmitZero: a start or stop of 0 is not written at all (the keys are optional)
+	OmitZero bool
 }
 
 // Decl is one integration declaration.
@@ -158,6 +160,17 @@ func (d *Decl) JSON() map[string]any {
 	for _, s := range d.Sources {
 		if s.Pad > 0 {
 			srcs = append(srcs, map[string]any{"name": s.Name, "start": fmt.Sprintf("%0*d", s.Pad, s.Start), "stop": fmt.Sprintf("%0*d", s.Pad, s.Stop)})
+			continue
+		}
+		if s.OmitZero {
+			m := map[string]any{"name": s.Name}
+			if s.Start != 0 {
+				m["start"] = s.Start
+			}
+			if s.Stop != 0 {
+				m["stop"] = s.Stop
+			}
+			srcs = append(srcs, m)
 			continue
 		}
 		srcs = append(srcs, map[string]any{"name": s.Name, "start": s.Start, "stop": s.Stop})
